@@ -149,7 +149,16 @@ func snapWorker(args []string) error {
 	}
 	n, err := startNode(nw, vNodeOpts{ID: "n1", Dir: *dir, Addr: *addr, NoHTTP: true})
 	if err != nil {
-		al.line(map[string]any{"ev": "openfail", "err": err.Error()})
+		// for diagnosis: what the snapshot store looks like
+		var listing []string
+		filepath.Walk(filepath.Join(*dir, "wsnapshots"), func(p string, fi os.FileInfo, err error) error {
+			if err == nil {
+				rel, _ := filepath.Rel(*dir, p)
+				listing = append(listing, fmt.Sprintf("%s:%d", rel, fi.Size()))
+			}
+			return nil
+		})
+		al.line(map[string]any{"ev": "openfail", "err": err.Error(), "snapshot_store": listing})
 		return err
 	}
 	s := n.Store
